@@ -810,6 +810,15 @@ class Dumper {
       if (auto* R = dyn_cast<CXXRecordDecl>(V->getDeclContext())) J.attribute("cls", qualName(R));
       bool emptyT = isEmptyClassType(V->getType());
       J.attribute("emptytype", emptyT);
+      // initialiser (static data members initialised by an immediately invoked lambda carry real code)
+      if (V->hasInit() && !V->isStaticLocal()) {
+        std::string saved = CurFile;
+        CurFile = fileOf(L);
+        J.attributeBegin("init");
+        dumpStmt(V->getInit());
+        J.attributeEnd();
+        CurFile = saved;
+      }
     });
   }
 };
